@@ -47,6 +47,54 @@ def gen_service_tbl():
         broken.append("eval.EvalFunc.trigger_init: `for srv_name in ...` registration loop shape")
     else:
         body.append(f"def LEGACY_SKIPS_DUPLICATE : Bool := {'true' if skip else 'false'}")
+
+    # GlobalContext.start(): are the delayed managers started in definition order (a list `dms_order`) or by iterating
+    # the set `dms_delay_start`?
+    gc = parse("global_ctx.py")
+    gstart = find_func(gc, "start", "GlobalContext")
+    order = None
+    if gstart is not None:
+        loops = [n for n in ast.walk(gstart) if isinstance(n, ast.For)
+                 and any(isinstance(c, ast.Call) and ast.unparse(c.func) == "dm.start" for c in ast.walk(n))]
+        if len(loops) == 1:
+            it = ast.unparse(loops[0].iter)
+            if it == "self.dms_delay_start":
+                order = False
+            elif it == "ordered":
+                first = [n for n in gstart.body if isinstance(n, ast.Assign) and ast.unparse(n.targets[0]) == "ordered"]
+                cdm = find_func(gc, "create_decorator_manager", "GlobalContext")
+                appended = cdm is not None and any(
+                    isinstance(c, ast.Call) and ast.unparse(c.func) == "self.dms_order.append" for c in ast.walk(cdm))
+                if len(first) == 1 and appended and \
+                        ast.unparse(first[0].value) == "[dm for dm in self.dms_order if dm in self.dms_delay_start]":
+                    order = True
+    if order is None:
+        broken.append("global_ctx.GlobalContext.start: the loop creating the dm.start() tasks has an unknown shape")
+    else:
+        body.append(f"def START_IN_DEFINITION_ORDER : Bool := {'true' if order else 'false'}")
+
+    # FunctionDecoratorManager.on_func_var_deleted: is a manager that was not started yet taken out of the delayed set?
+    dm = parse("decorator.py")
+    ofd = None
+    for n in ast.walk(dm):
+        if isinstance(n, ast.FunctionDef) and n.name == "on_func_var_deleted":
+            ofd = n
+    discard = None
+    if ofd is not None:
+        running = any(isinstance(t, ast.If) and "DecoratorManagerStatus.RUNNING" in ast.unparse(t.test) for t in ast.walk(ofd))
+        if running:
+            validated = [t for t in ast.walk(ofd) if isinstance(t, ast.If)
+                         and ast.unparse(t.test) == "self.status is DecoratorManagerStatus.VALIDATED"]
+            if not validated:
+                discard = False
+            elif len(validated) == 1:
+                calls = [ast.unparse(c.func) for c in ast.walk(validated[0]) if isinstance(c, ast.Call)]
+                if "global_ctx.dms_delay_start.discard" in calls and "global_ctx.dms.discard" in calls:
+                    discard = True
+    if discard is None:
+        broken.append("decorator.FunctionDecoratorManager.on_func_var_deleted: shape")
+    else:
+        body.append(f"def DELETED_BEFORE_START_DISCARDED : Bool := {'true' if discard else 'false'}")
     emit("ServiceTbl", "\n".join(body))
 
 
